@@ -150,6 +150,7 @@ def run(ctx):
     # reaches nobody)
     from .. import system
     system.simulate_and_replay(ctx, 200 if q else 5000, 14 if q else 22, focus="multictl")
+    system.graph_replay(ctx, q, emitk=4 if q else 1, focus="multictl")
     classes = dict(rv.modules.MODULE_CLASSES)
     events = []
     # ---- macro: every (type, controller) target
